@@ -117,9 +117,26 @@ def infix_to_postfix(check: Check, rule: str = "PD") -> None:
         env0[nm] = Opaque("formula")
     try:
         sp = split_token_loop(ex, list(node.body), env0)
-        outs = write_only_lists(sp.loop, env0)
+        # the output queue is the list whose content ends up in what is returned at the end of the input: found by putting a mark into each list in turn
+        outs = set()
+        cands = [k for k, v in env0.items() if isinstance(v, list)]
+        probe = {k: (list(v) if isinstance(v, list) else v) for k, v in env0.items()}
+        for cand in cands:
+            probe[cand] = [("mark", cand)]  # every list holds a mark of its own: what is already in the queue comes first in the result
+        try:
+            ex.steps = 0
+            ex.block(sp.post, probe)
+            res = None
+        except _Return as r_:
+            res = r_.value
+        except (Raised, Internal):
+            res = None
+        if isinstance(res, Joined) and res.items and isinstance(res.items[0], tuple) and res.items[0][0] == "mark":
+            outs.add(res.items[0][1])
         if len(outs) != 1:
-            raise AnalysisError(f"{fn.qualname}: expected exactly one output queue that the token loop only appends to, found {sorted(outs)}")
+            outs = write_only_lists(sp.loop, env0) if not outs else outs
+        if len(outs) != 1:
+            raise AnalysisError(f"{fn.qualname}: expected exactly one list whose content is what is returned at the end of the input (the output queue), found {sorted(outs)}")
         out_name = next(iter(outs))
         state_names = sorted(k for k, v in env0.items() if k != out_name and isinstance(v, (list, int, bool, type(None))) and not isinstance(v, Opaque))
 
